@@ -269,14 +269,16 @@ func c16E2E(c C16Case, r evid.Result) evid.Result {
 	floor := func(ns int64) int64 { return ns / 1e9 } // instants are positive
 	// How the window is rounded to the daemon's whole seconds is C02's subject: here the
 	// resolved instants only have to be the ones asked for, give or take a few seconds of
-	// rounding on the safe (wider) side.
+	// rounding on the safe (wider) side - never later than the resolved start (to the
+	// nanosecond, whatever fraction the option carries), never earlier than the whole second
+	// of the resolved end.
 	const slack = 5
-	if since < floor(lo0)-slack || since > floor(lo1) {
-		r.Violation = evid.Viol("C16/e2e-since", "args %v: daemon was asked since=%d, want within [%d, %d]", args, since, floor(lo0), floor(lo1))
+	if since < floor(lo0)-slack || sinceT.UnixNano() > lo1 {
+		r.Violation = evid.Viol("C16/e2e-since", "args %v: daemon was asked since=%q (%d ns), want within [%d s, %d ns]", args, opts.Since, sinceT.UnixNano(), floor(lo0), lo1)
 		return r
 	}
 	if until < floor(hiEnd0) || until > floor(hiEnd1)+slack {
-		r.Violation = evid.Viol("C16/e2e-until", "args %v: daemon was asked until=%d, want within [%d, %d]", args, until, floor(hiEnd0), floor(hiEnd1))
+		r.Violation = evid.Viol("C16/e2e-until", "args %v: daemon was asked until=%q, want within [%d, %d]", args, opts.Until, floor(hiEnd0), floor(hiEnd1))
 		return r
 	}
 	if !opts.ShowStdout || !opts.ShowStderr || !opts.Timestamps || opts.Follow {
